@@ -28,9 +28,14 @@ namespace SH.Table
 inductive Variant | fixed | old
 deriving DecidableEq, Repr
 
+/-- `tableRowKey{time, tsTags}`: the time and the WHOLE tag block of the storage row. `tags` lists the integer tag values
+    `tag[j]` (j < NT) followed, in the harness protocol, by the codes of the unmapped string values `stag[j]` (j < NT,
+    0 = none) of the same tags: a group-by tag is either mapped (integer value), unmapped (integer 0, string value) or
+    unspecified. Comparisons (`lessThan`, `less`) read the integer part only (`tagAt` with j < NT), key equality reads
+    everything. -/
 structure Key where
   time : Int
-  tags : List Int       -- tag[j] = tags[j], 0 beyond the end
+  tags : List Int       -- tag[j] = tags[j], 0 beyond the end; then the string-value codes
   skey : Nat            -- code of stag[StringTopTagIndexV3]; 0 = ""
 deriving DecidableEq, Repr
 
@@ -419,5 +424,18 @@ def getHandlerWhat (request : List Fn) : List HandlerWhat := groupSorted (sortFn
 
 /-- the `cols` of a table request: per storage query the value field of each of its columns -/
 def colsOf (request : List Fn) : List (List Nat) := (getHandlerWhat request).map (fun g => g.sel.map (·.field))
+
+/-! ### a slimmer row key (seeded change C25-r4-2, kept as a variant for a witness)
+
+  `tableRowKey{time, tag [MaxTags]int64, skey}` keeps the integer tag values and the string-top key and drops the other
+  string values. In the model: only the first `nInt` entries of `tags` take part in the key. Looking rows up by the slim
+  key is the same as running the loops on storage answers whose keys have been slimmed (the table row then keeps the
+  tags of the first storage row that created it). -/
+
+def slimKey (nInt : Nat) (k : Key) : Key := { k with tags := k.tags.take nInt }
+
+def slimStore (nInt : Nat) (store : List (List (Option (List (List Row))))) : List (List (Option (List (List Row)))) :=
+  store.map (fun perLod => perLod.map (fun ans => ans.map (fun groups =>
+    groups.map (fun g => g.map (fun r => { r with key := slimKey nInt r.key })))))
 
 end SH.Table
